@@ -131,6 +131,8 @@ type MatcherSpec struct {
 	ErrMissing  *bool           `json:"err_on_missing,omitempty"`
 	Return      json.RawMessage `json:"return,omitempty"`     // custom: value returned
 	ReturnErr   string          `json:"return_err,omitempty"` // custom: error returned
+	// ReturnInput (custom, with ReturnErr): the callback returns the value it received together with the error
+	ReturnInput bool `json:"return_input_with_error,omitempty"`
 	// InPlace (custom): the callback scrubs the map / slice it receives IN PLACE and returns that very object
 	// (m["scrubbed_by_callback"] = true; return m, nil); for other values it returns Return
 	InPlace bool `json:"callback_mutates_argument_in_place,omitempty"`
@@ -220,6 +222,9 @@ func (rt *matcherRT) build(m MatcherSpec) bothMatcher {
 			}
 			rt.observed = append(rt.observed, customObs{Path: path, Value: seen})
 			if m.ReturnErr != "" {
+				if m.ReturnInput {
+					return val, errors.New(m.ReturnErr) // `return val, err`: the value as received together with the error
+				}
 				return nil, errors.New(m.ReturnErr)
 			}
 			if m.InPlace {
